@@ -20,6 +20,23 @@ def _repo_prefix():
 
 REPO = _repo_prefix()
 
+
+def preload():
+    """Import everything heavy in the parent: plans run in forked children,
+    which must not pay for imports again."""
+    import panqec.cli            # noqa: F401
+    import panqec.simulation     # noqa: F401
+    import panqec.analysis       # noqa: F401
+    import panqec.decoders       # noqa: F401
+    import panqec.codes          # noqa: F401
+    import panqec.config         # noqa: F401
+    import click.testing         # noqa: F401
+    import zipfile               # noqa: F401
+    import pandas                # noqa: F401
+
+
+preload()
+
 # ---------------------------------------------------------------------------
 # entropy
 # ---------------------------------------------------------------------------
@@ -36,8 +53,16 @@ def _sim_default_rng(seed=None):
     return _real_default_rng(seed)
 
 
-def install_entropy():
+def install_entropy(seed=0):
+    """OS entropy behind the seam; the two process-global generators
+    (module `random`, numpy's legacy global state) are seeded from the plan
+    seed so that code which (wrongly) draws from them is still replayable -
+    the twin / fresh-object oracles, which run in another simulated process,
+    see different draws and report it."""
+    import random as _random
     np.random.default_rng = _sim_default_rng
+    _random.seed(H(seed, 'global-random'))
+    np.random.seed(H(seed, 'global-numpy') & 0xffffffff)
 
 
 def uninstall_entropy():
@@ -291,6 +316,10 @@ def sim_progress(iterable=None, *a, **kw):
 
 
 def clear_caches():
-    """What a real new process starts with."""
+    """What a real new process starts with (as far as the code offers a
+    way to reset it)."""
     from panqec.error_models import PauliErrorModel
-    PauliErrorModel.probability_distribution.cache_clear()
+    cc = getattr(PauliErrorModel.probability_distribution, 'cache_clear',
+                 None)
+    if cc is not None:
+        cc()
